@@ -199,6 +199,16 @@ read here is index / selection logic, not arithmetic, so values carry a type (Ra
   `pd.Series(e)` and `e.values` are e -- all elementwise;
 * a local listed in `opaque` keeps its name as a parameter: the assignment that binds it (a column lookup such as
   `vals = self[freq_key].values`) is skipped.
+
+Added for the decision code of C15 (classes `FnOpt`, `BoolFn` at the end of this file; used by
+harness/extractors/exprs_sex.py, and the statement-shape reader harness/extractors/exprs_center.py):
+* `FnOpt`: `a, b = helper(x, ...)` from a helper named `opaque` leaves `a`, `b` as the helper's results (bound by the
+  caller of the translator: the helper itself and `+` on its array argument stay abstract); `and`/`or` over resolved
+  `is None` tests are folded; with `decimal_floats` a float literal is the DECIMAL written in the source (`0.01` = 1/100);
+* `BoolFn`: functions over flags and boolean masks read elementwise -- every name a `Bool`; `and or not & | ~` as
+  `&& || !`; `.values` transparent; `self.m(args)` an opaque mask atom `m_args`; `<x>.<col> == self.<label>` the atom
+  `<col>_eq_<label>`; `m &= e`; `arr = np.zeros(..)` / `self.copy()` start an element at 0 (the CHANGE of the element for a
+  copy), `arr[mask] = c`, `arr[mask, "col"] += c` update it; `if p is None: p = ...` is skipped for a parameter given.
 """
 from __future__ import annotations
 
@@ -2601,3 +2611,190 @@ def emit_gtyped(o, lean_name, build, comment=None):
         return
     o.lines.append(text)
     o.info[lean_name] = {"params": params}
+# ------------------------------------------------------------------------------------------------------------
+# Additions for decision code that is not plain arithmetic (C15: cnary.shift_xx, expect_flat_log2, chr_x_filter,
+# compare_sex_chromosomes and its nested helper compare_chrom).  Further reading rules (trusted base):
+# * `FnOpt`: a tuple assignment `a, b = helper(first_arg, ...)` from a helper named in `opaque` leaves `a`, `b` as
+#   results of that helper (free names, bound by the caller of the translator); `x is None` tests on such names are
+#   resolved by given/absent as before, and `and`/`or` over resolved tests are folded (`True ∧ c` = `c`, ...), so a
+#   branch that cannot be taken does not mention the absent name.  With `decimal_floats` a float literal is read as
+#   the DECIMAL written in the source (`0.01` = 1/100; the models of this group state their floors and thresholds
+#   as decimals, the exact double differs by less than one ulp).
+# * `BoolFn`: a function over flags and boolean masks, read ELEMENTWISE: every parameter / local is a `Bool`;
+#   `and or not`, `& | ~` are `&& || !`; `.values` is transparent; a method call on `self` that returns a mask
+#   (`self.chr_x_filter(g)`) is an opaque atom named after the method and the names of its arguments;
+#   `<anything>.<col> == self.<label>` is the atom `<col>_eq_<label>`; `m &= e` / `m |= e` update a mask;
+#   `arr = np.zeros(...)`, `arr[mask] = c`, `arr[mask, "col"] += c` are read as the value of one element (start 0 /
+#   the increment), `if x is None: x = ...` defaulting statements are skipped for parameters named in `given`.
+# ------------------------------------------------------------------------------------------------------------
+
+class FnOpt(Fn):
+    def __init__(self, fn, opaque=(), decimal_floats=False, **kw):
+        super().__init__(fn, **kw)
+        self.opaque = set(opaque)
+        self.opaque_calls = []   # (targets, call node) in source order
+        self.decimal_floats = decimal_floats
+
+    def expr(self, e, env):
+        if self.decimal_floats and isinstance(e, ast.Constant) and isinstance(e.value, float):
+            return _rat(Fraction(repr(e.value)))   # the decimal as written (shortest repr of the double)
+        return super().expr(e, env)
+
+    def cond(self, e, env):
+        if isinstance(e, ast.BoolOp):
+            parts = [self.cond(v, env) for v in e.values]
+            if isinstance(e.op, ast.And):
+                if "False" in parts:
+                    return "False"
+                parts = [p for p in parts if p != "True"]
+                if not parts:
+                    return "True"
+            else:
+                if "True" in parts:
+                    return "True"
+                parts = [p for p in parts if p != "False"]
+                if not parts:
+                    return "False"
+            if len(parts) == 1:
+                return parts[0]
+            return "(" + (" ∧ " if isinstance(e.op, ast.And) else " ∨ ").join(parts) + ")"
+        return super().cond(e, env)
+
+    def block(self, stmts, env):
+        if stmts:
+            s = stmts[0]
+            if isinstance(s, ast.Assign) and len(s.targets) == 1 and isinstance(s.targets[0], ast.Tuple) \
+                    and isinstance(s.value, ast.Call) and isinstance(s.value.func, ast.Name) \
+                    and s.value.func.id in self.opaque \
+                    and all(isinstance(t, ast.Name) for t in s.targets[0].elts):
+                self.opaque_calls.append(([t.id for t in s.targets[0].elts], s.value))
+                return self.block(stmts[1:], env)
+        return super().block(stmts, env)
+
+
+class BoolFn:
+    """elementwise reading of a function over flags and boolean masks (see the rules above)"""
+
+    def __init__(self, fn, given=(), absent=()):
+        self.fn, self.given, self.absent = fn, set(given), set(absent)
+        self.params = []
+
+    def atom(self, name):
+        if name not in self.params:
+            self.params.append(name)
+        return name
+
+    def mask(self, e, env):
+        if isinstance(e, ast.Attribute) and e.attr == "values":
+            return self.mask(e.value, env)
+        if isinstance(e, ast.Name):
+            return env[e.id] if e.id in env else self.atom(e.id)
+        if isinstance(e, ast.Constant) and isinstance(e.value, bool):
+            return "true" if e.value else "false"
+        if isinstance(e, ast.BoolOp):
+            op = " && " if isinstance(e.op, ast.And) else " || "
+            return "(" + op.join(self.mask(v, env) for v in e.values) + ")"
+        if isinstance(e, ast.BinOp) and isinstance(e.op, (ast.BitAnd, ast.BitOr)):
+            op = " && " if isinstance(e.op, ast.BitAnd) else " || "
+            return f"({self.mask(e.left, env)}{op}{self.mask(e.right, env)})"
+        if isinstance(e, ast.UnaryOp) and isinstance(e.op, (ast.Not, ast.Invert)):
+            return f"(!{self.mask(e.operand, env)})"
+        if isinstance(e, ast.Compare) and len(e.ops) == 1:
+            l, r = e.left, e.comparators[0]
+            if isinstance(e.ops[0], (ast.Is, ast.IsNot)) and isinstance(r, ast.Constant) and r.value is None \
+                    and isinstance(l, ast.Name):
+                if l.id in self.given:
+                    return "false" if isinstance(e.ops[0], ast.Is) else "true"
+                if l.id in self.absent:
+                    return "true" if isinstance(e.ops[0], ast.Is) else "false"
+                raise Untranslatable(f"None-test of `{l.id}` not resolved by given/absent")
+            if isinstance(e.ops[0], ast.Eq) and isinstance(l, ast.Attribute) and isinstance(r, ast.Attribute) \
+                    and isinstance(r.value, ast.Name) and r.value.id == "self":
+                return self.atom(f"{l.attr}_eq_{r.attr}")
+        if isinstance(e, ast.Call) and isinstance(e.func, ast.Attribute) and isinstance(e.func.value, ast.Name) \
+                and e.func.value.id == "self":
+            names = []
+            for a in list(e.args) + [k.value for k in e.keywords]:
+                if not isinstance(a, ast.Name):
+                    raise Untranslatable("mask call " + ast.unparse(e))
+                if a.id in self.absent:
+                    continue   # passing None on = not passing it
+                names.append(a.id)
+            return self.atom("_".join([e.func.attr] + names))
+        raise Untranslatable("mask " + ast.unparse(e))
+
+    def num(self, e):
+        if isinstance(e, ast.UnaryOp) and isinstance(e.op, (ast.USub, ast.UAdd)) and isinstance(e.operand, ast.Constant):
+            v = -e.operand.value if isinstance(e.op, ast.USub) else e.operand.value
+            return _rat(v)
+        if isinstance(e, ast.Constant) and isinstance(e.value, (int, float)) and not isinstance(e.value, bool):
+            return _rat(e.value)
+        raise Untranslatable("number " + ast.unparse(e))
+
+    def is_default_fill(self, s):
+        # `if p is None: p = ...` for a parameter that is given
+        return isinstance(s, ast.If) and not s.orelse and isinstance(s.test, ast.Compare) and len(s.test.ops) == 1 \
+            and isinstance(s.test.ops[0], ast.Is) and isinstance(s.test.left, ast.Name) and s.test.left.id in self.given \
+            and isinstance(s.test.comparators[0], ast.Constant) and s.test.comparators[0].value is None
+
+    # value of one element of the returned array / mask; `val` = current element value (Lean term) of each array local
+    def block(self, stmts, env, val):
+        if not stmts:
+            raise Untranslatable("function falls off its end without a return")
+        s, rest = stmts[0], stmts[1:]
+        if isinstance(s, ast.Expr) and isinstance(s.value, ast.Constant):
+            return self.block(rest, env, val)
+        if isinstance(s, ast.Assert) or self.is_default_fill(s):
+            return self.block(rest, env, val)
+        if isinstance(s, ast.Return):
+            if isinstance(s.value, ast.Name) and s.value.id in val:
+                return val[s.value.id], "Rat"
+            return self.mask(s.value, env), "Bool"
+        if isinstance(s, ast.Assign) and len(s.targets) == 1:
+            t = s.targets[0]
+            if isinstance(t, ast.Name):
+                v = s.value
+                if isinstance(v, ast.Call) and ast.unparse(v.func) in ("np.zeros", "np.zeros_like"):
+                    return self.block(rest, env, {**val, t.id: "(0 : Rat)"})
+                if isinstance(v, ast.Call) and isinstance(v.func, ast.Attribute) and v.func.attr == "copy" and not v.args:
+                    return self.block(rest, env, {**val, t.id: "(0 : Rat)"})   # a copy: element change starts at 0
+                return self.block(rest, {**env, t.id: self.mask(v, env)}, val)
+            if isinstance(t, ast.Subscript) and isinstance(t.value, ast.Name) and t.value.id in val:
+                m = self.mask(t.slice, env)
+                return self.block(rest, env, {**val, t.value.id: f"(if {m} then {self.num(s.value)} else {val[t.value.id]})"})
+        if isinstance(s, ast.AugAssign):
+            t = s.target
+            if isinstance(t, ast.Name) and isinstance(s.op, (ast.BitAnd, ast.BitOr)):
+                op = " && " if isinstance(s.op, ast.BitAnd) else " || "
+                cur = env[t.id] if t.id in env else self.atom(t.id)
+                return self.block(rest, {**env, t.id: f"({cur}{op}{self.mask(s.value, env)})"}, val)
+            if isinstance(t, ast.Subscript) and isinstance(t.value, ast.Name) and t.value.id in val \
+                    and isinstance(s.op, (ast.Add, ast.Sub)):
+                sl = t.slice
+                if isinstance(sl, ast.Tuple) and len(sl.elts) == 2 and isinstance(sl.elts[1], ast.Constant):
+                    self.atom_cols = getattr(self, "atom_cols", []) + [sl.elts[1].value]
+                    sl = sl.elts[0]
+                m = self.mask(sl, env)
+                op = "+" if isinstance(s.op, ast.Add) else "-"
+                cur = val[t.value.id]
+                return self.block(rest, env, {**val, t.value.id: f"(if {m} then ({cur} {op} {self.num(s.value)}) else {cur})"})
+        if isinstance(s, ast.If):
+            c = self.mask(s.test, env)
+            if c == "true":
+                return self.block(list(s.body) + rest, env, val)
+            if c == "false":
+                return self.block(list(s.orelse) + rest, env, val)
+            th, ty1 = self.block(list(s.body) + rest, dict(env), dict(val))
+            el, ty2 = self.block(list(s.orelse) + rest, dict(env), dict(val))
+            if ty1 != ty2:
+                raise Untranslatable("branches of different type")
+            return f"(if {c} then {th} else {el})", ty1
+        raise Untranslatable(type(s).__name__ + ": " + ast.unparse(s)[:80])
+
+    def translate(self, lean_name, comment=None):
+        body, ty = self.block(list(self.fn.body), {}, {})
+        sig = [a.arg for a in self.fn.args.args]
+        ordered = [p for p in sig if p in self.params] + [p for p in self.params if p not in sig]
+        ps = f" ({' '.join(ordered)} : Bool)" if ordered else ""
+        doc = f"/-- {comment} -/\n" if comment else ""
+        return doc + f"def {lean_name}{ps} : {ty} :=\n  {body}", ordered
